@@ -26,14 +26,29 @@ META = {
             ".remaining() / .consumed() / .fuel() / set_fuel / State::new( in minijinja/src and minijinja-contrib/src outside "
             "vm/fuel.rs is one of: Environment configuration, State::new creating it from env.fuel(), the single borrow+track in "
             "eval_impl, State::fuel_levels — no copy, restore or other reader); track_before_dispatch (loop, fetch, hook, borrow, "
-            "ctx_ok!(track), match instr in this order, once each). The differential tie runs ~2900 (quick) / ~26000 (thorough) "
+            "ctx_ok!(track), match instr in this order, once each); no_budget_observer (the readers of fuel_tracker / fuel_levels() / "
+            ".remaining() / .consumed(), classified per row, are the charge in eval_impl and the Rust API State::fuel_levels — none in a "
+            "Debug/Display fmt, builtin, value object or output code, i.e. none reachable from template output); "
+            "entry_points_reach_state_new (call graph of Template::render/render_captured/render_captured_to/new_state, "
+            "Expression::eval, Environment::render_str/render_named_str/empty_state ends in State::new). (6) "
+            "observations_budget_independent: any function of instructions, states and result is the same for any two sufficient "
+            "budgets and without a budget, only the tracker differs (by the difference of the budgets). (7) Configuration: "
+            "config_path (set_fuel(None) after Some is unmetered, last set wins, clones keep their budget, every evaluation gets a "
+            "fresh tracker) and render_threshold_exact. The differential tie runs ~2900 (quick) / ~26000 (thorough) "
             "programs on the real engine (loops, macros, call blocks, imports, includes, inheritance, super, self.block, "
             "render_block/call_macro/Value::call from Rust, every nested-evaluation edge in emit position and 12 expression/captured "
             "positions, Rust callbacks that swallow the error of a nested evaluation, failing renders, expressions, random "
             "compositions): executed trace through a verif_hooks callback, threshold by bisection, every budget in [0, thr+8] and "
             "2^31, 2^32, 2^63-1, 2^63, 2^63+1, 2^64-2, 2^64-1 through render_captured, compared with the model (outcome, "
             "fuel_levels, number of dispatched instructions, levels seen by probe() inside nested evaluations, empty tank after a "
-            "swallowed error); the oracle checks the property itself on the engine's results.",
+            "swallowed error). Observer programs put debug(), debug(x), Debug of State/Environment through Rust callables, self, loop, "
+            "namespace(), macro and module objects into the output, the Debug form of the Captured is part of every result and all "
+            "text forms (Display, alternate Display, Debug, source chain) of non-fuel errors are compared with the unlimited run. For "
+            "~600 programs every entry point (render, render_captured_to, render_str, render_named_str, template_from_str, "
+            "template_from_named_str, Expression, clone, clone then change the original, set other then this, set then None, "
+            "new_state().render_block) and 8 environment variants (debug off, undefined modes, custom formatter, auto-escape on/off, "
+            "whitespace control, recursion limit) are checked for the same budget semantics, with the variants and blocks also run "
+            "through the model. The oracle checks the property itself on the engine's results.",
     "design_ref": "DESIGN.md §3 C13",
     "level_note": "Trusted: Lean kernel; the hand transcription of the four FuelTracker methods into MJ/Model/Fuel.lean (validated on "
                   "every scanned budget incl. the u64 extremes and budget 0); lib/tables/c13.py (regex extraction of the cost table, "
@@ -340,7 +355,10 @@ def run(r):
               "callbacks try_macro/try_block/try_apply that swallow the nested error x 13 positions x 3 continuations) with a work "
               "parameter k inside the nested evaluation, plus seeded random compositions; per program every budget in [0, thr+8] "
               "and 7 extremes up to 2^64-1; an evaluation = one render with a budget; a program is non-trivial when its threshold > 0")
-    r.assumptions = ["the VM is abstracted to its executed instruction trace; that fuel does not influence which instructions run "
+    r.assumptions = ["Template borrows the Environment, so a template obtained before set_fuel cannot exist (borrow checker); "
+                     "Template::new_state()/Environment::empty_state() create stand-alone metered states whose later render_block/"
+                     "call_macro calls keep charging that state's tracker (one budget per State, not per call)",
+                     "the VM is abstracted to its executed instruction trace; that fuel does not influence which instructions run "
                      "(limited run = prefix of the unlimited run) is validated on every scanned render, not proved",
                      "budgets between thr+8 and 2^31 and between the listed extremes behave like the model (proved for the model for every budget)",
                      "programs that panic or differ between two unlimited renders are outside the property (none generated)"]
